@@ -72,6 +72,10 @@ impl Group for C11Sim {
         }
         if rng.chance(1, 3) { ops.insert(0, "world perm".to_string()); }
         else if rng.chance(1, 6) { ops.insert(0, "world nocp".to_string()); }
+        else if rng.chance(1, 10) {
+            // one channel-level policy tag demoted to a warning: whatever is still refused must change nothing
+            ops.insert(0, format!("world filter {}", rng.pick(super::sim::FILTER_TAGS)));
+        }
         else if rng.chance(1, 8) {
             // the on-disk redb store as the main side: a crash image after every request
             ops.insert(0, "world redb".to_string());
